@@ -138,4 +138,9 @@ Definition c10_string_oracle_sx (plain_s ziface_s zfield_s zparam_s : str) : sx 
   end.
 
 Definition c10_dom (m : mapping) (t : tstruct) : bool := map_wide m && dom t.
+(* oracle alone on two generated modules (configurations whose naming the model is not fed) *)
+Definition c10_compare_sx (plain_text zod_text : str) : sx :=
+  match parse_module plain_text, parse_module zod_text with
+  | Some a, Some b => sx_verdict (compare_modules a b)
+  | _, _ => sx_verdict {| v_tags := [TgParse]; v_detail := []; v_keys := [] |} end.
 Definition c10_structure (r : rty) : option tstruct := Some (structure_of r).
